@@ -71,6 +71,8 @@ type Addr struct {
 	T     types.Type // type of the addressed value
 	stT   types.Type // aObj: struct type
 	fieldInv string
+	ownerT   types.Type // aField: struct type of the object
+	ownerRef string     // aMem: the object whose field holds the slice being written
 }
 
 type State struct {
@@ -149,6 +151,7 @@ type FnVC struct {
 	freeVars []*ssa.FreeVar
 	freshObjs []freshObj
 	afterHavoc bool
+	invTouched []touchedObj
 	axioms []string
 	tablesUsed map[string]bool
 	tableInfo map[string]*tableInfo
@@ -375,9 +378,11 @@ func (vc *FnVC) boxKey(elem types.Type) (string, Sort) {
 func (vc *FnVC) mapKeys(mt *types.Map) (dom, val, ln string, ks, vs Sort) {
 	ks = vc.sorts.sortOf(mt.Key())
 	vs = vc.sorts.sortOf(mt.Elem())
-	dom = "MapDom$" + sortKey(ks)
-	val = "MapVal$" + sortKey(ks) + "$" + sortKey(vs)
-	ln = "MapLen"
+	// maps of different Go types can never be the same object: separate stores per map type
+	tn := sanitize(memTypeName(mt.Key())) + "$" + sanitize(memTypeName(mt.Elem()))
+	dom = "MapDom$" + tn
+	val = "MapVal$" + tn
+	ln = "MapLen$" + tn
 	vc.registerKey(dom, "(Array Int (Array "+ks+" Bool))")
 	vc.registerKey(val, "(Array Int (Array "+ks+" "+vs+"))")
 	vc.registerKey(ln, "(Array Int Int)")
@@ -701,6 +706,9 @@ func (vc *FnVC) store(a *Addr, v string) {
 		vc.setLocal(a.alloc, vc.define(name, k, nv))
 	case aField, aBox:
 		vc.frameCheck(a.key, a.ref)
+		if a.kind == aField && a.ownerT != nil {
+			vc.touchObj(a.ref, a.ownerT)
+		}
 		if a.kind == aField && a.fieldInv != "" && len(a.path) == 0 {
 			// objects allocated by this function may be initialised in several steps; they are checked at return
 			vc.assert("field-invariant", a.key+" stays non-nil", sOr(sx(">", a.ref, vc.entryAlloc), nonNilTerm(v, vc.sorts.sortOf(a.T))))
@@ -710,6 +718,9 @@ func (vc *FnVC) store(a *Addr, v string) {
 		vc.set(a.key, sStore(vc.cur(a.key), a.ref, nv))
 	case aMem:
 		vc.frameCheck(a.key, a.ref)
+		if a.ownerRef != "" {
+			vc.touchObj(a.ownerRef, a.ownerT)
+		}
 		if a.idx == "" {
 			vc.set(a.key, sStore(vc.cur(a.key), a.ref, v))
 			return
@@ -944,4 +955,68 @@ func (vc *FnVC) immutableKey(k string) bool {
 		}
 	}
 	return vc.eng.immutableHeapKey(k)
+}
+
+type touchedObj struct {
+	ref string
+	T   types.Type // pointer type *T
+}
+
+// touchObj records that this function wrote a field (or a map / slice stored in a field) of the object `ref` of a type
+// with an encapsulated invariant; the invariant is then an obligation at every return (kind type-invariant).
+func (vc *FnVC) touchObj(ref string, stT types.Type) {
+	n, ok := stT.(*types.Named)
+	if !ok || n.Obj().Pkg() == nil {
+		return
+	}
+	if vc.eng.specs.TypeInvs[n.Obj().Pkg().Name()+"."+n.Obj().Name()] == nil {
+		return
+	}
+	for _, t := range vc.invTouched {
+		if t.ref == ref {
+			return
+		}
+	}
+	vc.invTouched = append(vc.invTouched, touchedObj{ref, types.NewPointer(stT)})
+}
+
+// fieldOwner: if v is `*(&obj.f)` for an object of a type with an invariant, returns (ref of obj, struct type).
+func (vc *FnVC) fieldOwner(v ssa.Value) (string, types.Type, bool) {
+	u, ok := v.(*ssa.UnOp)
+	if !ok || u.Op != token.MUL {
+		return "", nil, false
+	}
+	fa, ok := u.X.(*ssa.FieldAddr)
+	if !ok {
+		return "", nil, false
+	}
+	pt, ok := fa.X.Type().Underlying().(*types.Pointer)
+	if !ok {
+		return "", nil, false
+	}
+	a, ok := vc.addrs[fa]
+	if !ok || a.kind != aField {
+		return "", nil, false
+	}
+	return a.ref, pt.Elem(), true
+}
+
+func (vc *FnVC) checkTouched() {
+	for _, t := range vc.invTouched {
+		c, n := vc.typeInvFor(t.T)
+		if c == nil {
+			continue
+		}
+		env := &SpecEnv{vc: vc, vars: map[string]Val{"self": {t.ref, t.T, SInt}}, cur: vc.st, old: vc.entry, pkg: n.Obj().Pkg(), witFn: vc.key}
+		var parts []string
+		_, err := vc.trySpec(func() string { parts = env.conjuncts(c.Expr, false); return "" })
+		if err != "" {
+			vc.specErrs = append(vc.specErrs, "typeinv "+n.Obj().Name()+": "+err)
+			continue
+		}
+		vc.flushSide(env)
+		for j, p := range parts {
+			vc.assert("type-invariant", fmt.Sprintf("%s.%d", n.Obj().Name(), j+1), sImp(sNot(sEq(t.ref, "0")), p))
+		}
+	}
 }
